@@ -164,6 +164,7 @@ def build(rng):
         entries.append(e)
         pats.append(p)
     peer = rng.choice(PEERS)
+    twin = rng.random() < 0.3  # a second requester sends the same entries in the same loop iteration
     script = [(0.0, BEFORE, dict(kind="setup")), (s0, BEFORE, dict(kind="ann_start"))]
     find = (y, rank, dict(kind="find", peer=peer, mc=mc, entries=entries))
     if x is not None:
@@ -176,10 +177,16 @@ def build(rng):
         # same (instant, rank) group keeps script order: enforce the requested order
         script = [it for it in script if it[2]["kind"] not in ("find", "unannounce")] + ([stop, find] if order == "stop-first" else [find, stop])
         script.sort(key=lambda it: (it[0], it[1]))
+    peers = [peer]
+    if twin:
+        other = [p for p in PEERS if p != peer][0]
+        peers.append(other)
+        idx = next(i for i, it in enumerate(script) if it[2]["kind"] == "find")
+        script.insert(idx + 1, (y, rank, dict(kind="find", peer=other, mc=mc, entries=entries)))
     d = c10.answer_delay(cfg) if mc else 0.0
     horizon = max(y + d, x or 0) + 1.0
     return dict(cfg=cfg, insts=insts, script=script, y=y, x=x, stop_k=stop_k, T0=T0, mc=mc, entries=entries, pats=pats,
-                peer=peer, cls=cls, d=d, horizon=horizon)
+                peer=peer, peers=peers, cls=cls, d=d, horizon=horizon)
 
 
 def judge(ctx, sc, seed, replay):
@@ -226,15 +233,27 @@ def judge(ctx, sc, seed, replay):
     for p in problems:
         bad("unexpected-exception-during-run", problem=p)
     ids = {(s[0], s[1], s[2]): k for k, s in enumerate(sc["insts"])}
-    got = {}
     tol = 4 * RES
+    if len(sc["peers"]) > 1:
+        ctx.count("two_requesters_in_one_iteration")
+    for the_peer in sc["peers"]:
+        _judge_peer(ctx, sc, run, sent, the_peer, must, may, ids, z, ct, tol, bad)
+    for msg in sent:
+        if msg["dst"] != net.MCAST and msg["dst"] not in sc["peers"]:
+            bad("answer-sent-to-someone-other-than-the-requester", dst=msg["dst"])
+    return nontrivial
+
+
+def _judge_peer(ctx, sc, run, sent, the_peer, must, may, ids, z, ct, tol, bad):
+    cfg = sc["cfg"]
+    d = sc["d"]
+    got = {}
     for msg in sent:
         if msg["dst"] == net.MCAST:
             continue
         for e in msg["entries"]:
             k = ids.get((e["sid"], e["iid"], e["maj"]))
-            if msg["dst"] != sc["peer"]:
-                bad("answer-sent-to-someone-other-than-the-requester", dst=msg["dst"], entry=e)
+            if msg["dst"] != the_peer:
                 continue
             if e["type"] != 1 or k is None:
                 bad("unexpected-entry-sent-to-requester", entry=e)
@@ -265,7 +284,6 @@ def judge(ctx, sc, seed, replay):
             bad("non-matching-instance-answered", instance=k, got=g)
         else:
             bad("instance-in-initial-wait-or-stopped-answered", instance=k, got=g)
-    return nontrivial
 
 
 def shards(tier, seed):
